@@ -636,14 +636,20 @@ func c03GenPump(c *ctx) {
 		for _, extra := range []int{1, 5000} {
 			stream, ops := build(capQ + extra)
 			evs := oneByte(stream)
-			one(c03PTransfer, false, false, false, evs, ops, true, "backlog")
-			one(c03PTransfer, true, false, true, evs, ops, true, "backlog")
-			one(c03PFilter, false, false, false, evs, ops, true, "backlog")
+			// (the extracted pump model is quadratic in the number of chunks: three cases in
+			// the quick tier, all six in the thorough one)
+			if extra == 1 || c.thorough() {
+				one(c03PTransfer, false, false, false, evs, ops, true, "backlog")
+				one(c03PFilter, false, false, false, evs, ops, true, "backlog")
+			}
+			if extra != 1 || c.thorough() {
+				one(c03PTransfer, true, false, true, evs, ops, true, "backlog")
+			}
 		}
 		rig.backlog = false
 		// the same directly on addBuffer: a producer goroutine, a reader that comes late and
 		// pops everything; compared with the interleaving model of the bounded queue
-		for _, extra := range []int{1, 5000} {
+		for _, extra := range []int{1, 50, 5000} {
 			n := capQ + extra
 			b := trzsz.VerifNewBuffer()
 			var done atomic.Bool
@@ -674,7 +680,9 @@ func c03GenPump(c *ctx) {
 					runtime.Gosched()
 				}
 			}
-			c.emit(true, "queue_late", fmt.Sprintf("%d,0,0,%d:%s", cnt, n-cnt, hx(got)), fmt.Sprint(n))
+			if extra <= 50 || c.thorough() { // the extracted interleaving model is quadratic in n
+				c.emit(true, "queue_late", fmt.Sprintf("%d,0,0,%d:%s", cnt, n-cnt, hx(got)), fmt.Sprint(n))
+			}
 			c.count("backlog:direct")
 			want := make([]byte, n)
 			for i := range want {
